@@ -24,6 +24,40 @@ from . import smt
 from .opaque import concrete, registry
 
 VERIF = os.path.dirname(os.path.dirname(os.path.abspath(__file__)))
+
+
+class LineCov:
+    """python line coverage of /repo/jinns while the real code is being traced (reported as uncovered_lines in the evidence)"""
+
+    def __init__(self):
+        self.lines = {}
+        self.cov = None
+
+    def __enter__(self):
+        try:
+            import coverage
+            self.cov = coverage.Coverage(data_file=None, include=["/repo/jinns/*"], config_file=False)
+            self.cov.start()
+        except Exception:
+            self.cov = None
+        return self
+
+    def __exit__(self, *a):
+        if self.cov is not None:
+            try:
+                self.cov.stop()
+                d = self.cov.get_data()
+                for f in d.measured_files():
+                    self.lines[f] = sorted(d.lines(f) or [])
+            except Exception:
+                pass
+        return False
+
+
+def _merge_lines(res, lines):
+    cur = res.setdefault("lines", {})
+    for f, ls in lines.items():
+        cur[f] = sorted(set(cur.get(f, [])) | set(ls))
 REPLAYS = os.path.join(VERIF, "replays")
 
 
@@ -240,7 +274,9 @@ class EqObligation(Obligation):
                     pre.append(lambda low, e=e: low.poly(e) > 0)
         # 1. symbolic value of the real code
         try:
-            impl, it = JI.run_symbolic(fn, tuple(syms), example_args=tuple(i.example() for i in inputs))
+            with LineCov() as lc:
+                impl, it = JI.run_symbolic(fn, tuple(syms), example_args=tuple(i.example() for i in inputs))
+            _merge_lines(res, lc.lines)
         except JI.Unsupported:
             raise
         except Exception as e:
@@ -461,8 +497,15 @@ class FnObligation(Obligation):
         res = Result(name=self.name, kind="custom", functions=list(self.functions), status="error", backend=None,
                      detail="", solver_s=0.0, canary=None, crosscheck=None)
         try:
+            from . import pyvc as _pv
+            _pv.VISITED.clear()
             out = self.fn(seed)
             res.update(out)
+            lines = {}
+            for (pth, ln) in _pv.VISITED:
+                if pth:
+                    lines.setdefault(pth, set()).add(ln)
+            _merge_lines(res, {k: sorted(v) for k, v in lines.items()})
         except (JI.Unsupported, _pyvc_unsupported()) as e:
             res["status"] = "undecided"
             res["detail"] = f"unsupported: {e}"
